@@ -29,6 +29,7 @@ type ReplayFile struct {
 	Config    []string       `json:"config_and_program"`
 	Trace     string         `json:"trace"`
 	Race      bool           `json:"race_binary"`
+	SeedOnly  bool           `json:"seed_only,omitempty"` // the tape is the PRNG stream of run_seed (not minimised)
 	Repo      string         `json:"repo_state,omitempty"`
 	Original  *zsim.TapeData `json:"original_tape,omitempty"`
 }
@@ -120,7 +121,40 @@ func TestWorker(t *testing.T) {
 		defer evlog.Close()
 	}
 	raceSize := raceLogSize(raceLog)
+	var progress *os.File
+	if pp := os.Getenv("ZSIM_PROGRESS"); pp != "" {
+		progress, _ = os.Create(pp)
+	}
+	flush := func() {
+		out.WallS = time.Since(start).Seconds()
+		out.Distinct = len(fps)
+		if outPath == "" {
+			return
+		}
+		fpPath := outPath + ".fp"
+		buf := make([]byte, 0, 8*len(fps))
+		for k := range fps {
+			buf = binary.LittleEndian.AppendUint64(buf, k)
+		}
+		os.WriteFile(fpPath+".tmp", buf, 0o644)
+		os.Rename(fpPath+".tmp", fpPath)
+		out.FPFile = fpPath
+		js, _ := json.Marshal(out)
+		os.WriteFile(outPath+".tmp", js, 0o644)
+		os.Rename(outPath+".tmp", outPath)
+	}
 	for i := from; i < to; i += stride {
+		if progress != nil {
+			// announce the run before executing it: with GORACE=halt_on_error=1
+			// the process dies inside the run that races
+			var b [16]byte
+			binary.LittleEndian.PutUint64(b[:], uint64(i))
+			binary.LittleEndian.PutUint64(b[8:], RunSeed(base, id, i))
+			progress.WriteAt(b[:], 0)
+			if out.Runs%2000 == 1999 {
+				flush()
+			}
+		}
 		if i&15 == 0 && time.Since(start) > budget {
 			break
 		}
@@ -192,19 +226,8 @@ func TestWorker(t *testing.T) {
 			}
 		}
 	}
-	out.WallS = time.Since(start).Seconds()
-	out.Distinct = len(fps)
-	if outPath != "" {
-		fpPath := outPath + ".fp"
-		buf := make([]byte, 0, 8*len(fps))
-		for k := range fps {
-			buf = binary.LittleEndian.AppendUint64(buf, k)
-		}
-		os.WriteFile(fpPath, buf, 0o644)
-		out.FPFile = fpPath
-		js, _ := json.Marshal(out)
-		os.WriteFile(outPath, js, 0o644)
-	} else {
+	flush()
+	if outPath == "" {
 		js, _ := json.MarshalIndent(out, "", " ")
 		fmt.Println(string(js))
 	}
@@ -225,7 +248,11 @@ func replay(t *testing.T, p *Prop, path, tier string) {
 		tier = rf.Tier
 	}
 	raceLog := os.Getenv("ZSIM_RACELOG")
-	res := ExecOne(t, p, zsim.ReplayTape(rf.Tape), tier)
+	tape := zsim.ReplayTape(rf.Tape)
+	if rf.SeedOnly {
+		tape = zsim.NewTape(rf.RunSeed)
+	}
+	res := ExecOne(t, p, tape, tier)
 	viol := res.Viol
 	if zsim.RaceBuild && viol == nil {
 		if n := raceLogSize(raceLog); n > 0 {
